@@ -4,9 +4,10 @@ import re
 import ctx
 from mirlib import view, cname
 from eng_panic import Panic
+from eng_absint import Driver
 
 LEVEL = "other"
-TECHNIQUE = ("PANIC: call-graph closure (resolved MIR, trait-dispatch over-approximated by all local impls) from every exported function that consumes bytes, "
+TECHNIQUE = ("PANIC + ABSINT: call-graph closure (resolved MIR, trait-dispatch over-approximated by all local impls) from every exported function that consumes bytes, "
              "encodings, signatures or Montgomery points (discovered by signature, not listed by hand); every Assert / panicking call on a live path is an obligation, "
              "discharged by constant-index / constant-range / equal-length reasoning or matched against a reviewed residual table keyed by function and construct; "
              "release-mode MIR (checked-mode arithmetic panics are C11's obligations)")
@@ -16,9 +17,22 @@ ENTRY_NAME = re.compile(r"^(verify\w*|raw_verify\w*|from_slice|from_bytes\w*|dec
                         r"from_bytes_mod_order\w*|x25519|to_edwards|to_montgomery|mul_clamped|mul_base_clamped|diffie_hellman|from_keypair_bytes|from|visit_\w+|deserialize|from_repr\w*|from_uniform_bytes|"
                         r"is_weak|to_bytes|as_bytes|was_contributory|from_bits|clamp_integer)$")
 
-# reviewed residuals: (function path regex, kind regex, detail regex, reason)
+# reviewed residuals: (function path regex, kind regex, detail regex, reason); keys carry no line numbers
 RESIDUALS = [
+    (r"edwards::EdwardsPoint::nonspec_map_to_curve$", r"^call:.*expect$", r"^to_edwards\(&elligator_encode",
+     "expect() on to_edwards(elligator_encode(..)): elligator_encode returns the u-coordinate of a curve point; to_edwards yields None only through its "
+     "`u == -1` test (not a curve point's u) or through decompress() of the birationally mapped y (Some for every curve point): algebraic, outside any static "
+     "domain here.  The structural side conditions are checked by rule C15.to_edwards_none (below) on every run"),
+    (r"ed25519_dalek::batch::verify_batch::\{closure#0\}$", r"^assert:bounds$", r"PtrMetadata\(&arg1\*\.[012]\*\)",
+     "messages[i] / signatures[i] / verifying_keys[i] with i < signatures.len(): the three lengths are equal on this path (verify_batch returns Err before "
+     "the closure is built otherwise; that dominance is decided by C13's length-connectivity rule): relational, outside the interval domain"),
+    (r"VartimeMultiscalarMul>::optional_multiscalar_mul$|_impl_optional_multiscalar_mul$", r"^call:.*assert_failed|^call:panic$", r"tuple\{",
+     "assert_eq! on the two iterators' size hints: verify_batch passes once(..).chain(n items).chain(n items) for both, with n = signatures.len() "
+     "(exact-size chains of equal-length vectors): relational equality, outside the interval domain"),
 ]
+
+# functions whose panic edges are outside the property (see assumptions): none of these consume attacker bytes
+OUT_OF_SCOPE = re.compile(r"cpufeatures|get_selected_backend|cpuid_")
 
 
 def entries(F):
@@ -37,20 +51,21 @@ def entries(F):
 
 
 def run(tier, R):
-    cfgs = [("simd", "release")]
+    cfgs = [("simd", "release", "u64"), ("serial32", "release", "u32")]
     if tier == "thorough":
-        cfgs += [("serial32", "release"), ("serial64", "release"), ("fiat64", "release"), ("ifma", "release"), ("notables", "release"), ("simd-legacy", "release")]
-    else:
-        cfgs += [("serial32", "release")]
-    FS = ctx.facts_for(R, cfgs)
-    R.trust("rustc MIR + resolution; mirfacts; lib/eng_panic.py discharger (constant intervals, array lengths from types)")
-    R.assume("allocation failure, stack overflow and panics inside user-supplied trait impls (Digest, RngCore, serde formats) are outside the property")
+        cfgs += [("serial64", "release", "u64"), ("fiat64", "release", "u64"), ("notables", "release", "u64"), ("simd-legacy", "release", "u64")]
+    FS = ctx.facts_for(R, [(c, m) for c, m, _ in cfgs])
+    R.trust("rustc MIR + resolution; mirfacts; lib/eng_panic.py inventory; lib/absint.py interval interpreter + library models (lib/absint_models.py)")
+    R.assume("allocation failure, stack overflow and panics inside user-supplied trait impls (Digest, RngCore, serde formats) and inside other crates' code are outside the property")
     R.assume("integer-overflow / debug-assertion panics of checked builds are the obligations of C11, not repeated here (release-mode MIR is analysed)")
-    for (cfg, mode), F in FS.items():
-        check_cfg(F, R, cfg)
+    R.assume("A3: user-supplied iterators / slices behave as abstract collections; A1/A2 as in C11")
+    for (cfg, mode, backend) in cfgs:
+        F = FS.get((cfg, mode))
+        if F is not None:
+            check_cfg(F, R, cfg, backend)
 
 
-def check_cfg(F, R, cfg):
+def check_cfg(F, R, cfg, backend):
     I = lambda s: "%s:%s" % (cfg, s)
     es = entries(F)
     R.floor("C15.entries", I("untrusted-input entry points"), len(es), 60)
@@ -58,28 +73,143 @@ def check_cfg(F, R, cfg):
     P.reach(es)
     P.scan()
     R.floor("C15.reach", I("functions reachable from the entries"), len(P.reached), 250)
-    n_ok = n_res = 0
-    used = set()
+    # abstract interpretation from the same entries (every parameter at its type invariant / any bytes / any length)
+    D = Driver(F, backend)
+    D.all_generic_roots = True
+    from eng_panic import PANIC_CALL
+    D.ip.must_record_rx = PANIC_CALL
+    for f in sorted(es, key=lambda f: f["key"]):
+        D.run_root(f, check_ret=False)
+    R.floor("C15.absint", I("entry points analysed by ABSINT"), len(D.roots_run), 55)
+    skipped = sorted(short(f) for f, _ in D.skipped)
+    for f, why in D.errors:
+        R.viol("C15.analysis", I(short(f)), "abstract interpretation did not complete: %s" % why, F.loc(f))
+    n_ok = n_ai = n_dead = n_res = 0
     for e in P.edges:
         f = e["fn"]
+        if OUT_OF_SCOPE.search(f["path"]):
+            continue
         inst = "%s:%s:%s" % (short(f), e["kind"], e["detail"])
         if e["ok"]:
             n_ok += 1
             R.ok("C15.discharged", I(inst), e["why"])
             continue
+        site = D.ip.site_ok.get((f["key"], e["line"]))
+        if site is True:
+            n_ai += 1
+            R.ok("C15.discharged", I(inst), "ABSINT: holds in every context reached from the entry points")
+            continue
+        if site is None and f["key"] in D.ip.visited and not e["kind"].startswith("assert:overflow"):
+            n_dead += 1
+            R.ok("C15.discharged", I(inst), "ABSINT: the function is analysed from the entry points and no abstract path reaches this edge")
+            continue
         res = None
         for i, (fp, kp, dp, why) in enumerate(RESIDUALS):
             if re.search(fp, f["path"]) and re.search(kp, e["kind"]) and re.search(dp, e["detail"]):
-                res = (i, why)
+                res = why
                 break
         if res:
             n_res += 1
-            used.add(res[0])
-            R.ok("C15.residual", I(inst), "reviewed: " + res[1])
+            R.ok("C15.residual", I(inst), "reviewed: " + res)
         else:
-            R.viol("C15.panic_edge", I(inst), "reachable panic edge (%s) is neither discharged nor reviewed: %s [%s]; call path: %s" % (
-                e["kind"], e["detail"], e["why"], P.call_path(f["key"])), e["loc"])
-    R.extra.setdefault("panic_scan", {})[cfg] = {"entries": len(es), "functions_reached": len(P.reached), "edges": len(P.edges), "discharged": n_ok, "residual": n_res}
+            R.viol("C15.panic_edge", I(inst), "reachable panic edge (%s) is neither discharged nor reviewed: %s [%s; absint: %s]; call path: %s" % (
+                e["kind"], e["detail"], e["why"], "fails" if site is False else ("function not analysed" if f["key"] not in D.ip.visited else "-"),
+                P.call_path(f["key"])), e["loc"])
+    to_edwards_none(F, R, I)
+    R.extra.setdefault("panic_scan", {})[cfg] = {
+        "entries": len(es), "functions_reached": len(P.reached), "edges": len(P.edges), "discharged_by_constant_reasoning": n_ok,
+        "discharged_by_absint": n_ai, "unreached_in_analysed_function": n_dead, "residual_reviewed": n_res,
+        "absint_roots": len(D.roots_run), "absint_skipped_roots": skipped[:20], "absint_steps": D.ip.steps,
+        "unmodelled_callees": dict(sorted(D.ip.unmodelled.items(), key=lambda x: -x[1])[:10])}
+
+
+def to_edwards_none(F, R, I):
+    """side condition of the nonspec_map_to_curve residual: MontgomeryPoint::to_edwards produces None only (a) under the
+    u == -1 test or (b) by returning decompress()'s own result; any other None exit makes the expect() reachable"""
+    from pathlib2 import success_sites
+    import ex
+    fs = F.fn("curve25519_dalek::montgomery::MontgomeryPoint::to_edwards", all=True)
+    if len(fs) != 1:
+        R.anchor_missing("C15.to_edwards_none", I("MontgomeryPoint::to_edwards"), "function not found")
+        return
+    fv = view(F, fs[0])
+    n_none = 0
+    for bi, b in enumerate(fv.blocks):
+        if bi not in fv.live_blocks() or b.get("cleanup"):
+            continue
+        for s in b["s"]:
+            if s[0] == "=" and s[1][0] == 0 and not s[1][1] and s[2][0] == "agg" and s[2][1][0] == "adt" and "Option" in str(s[2][1][1]):
+                if s[2][1][2] == 0:
+                    n_none += 1
+                    e = guard_expr(fv, bi)
+                    ok = e is not None and mentions_minus_one(e) and bool(ex.find(e, lambda x: ex.is_call(x, r"(ct_eq|PartialEq>::eq|::eq)$")))
+                    if ok:
+                        R.ok("C15.to_edwards_none", I("to_edwards:None@%d" % n_none), "None is produced only under the `u == MINUS_ONE` test")
+                    else:
+                        R.viol("C15.to_edwards_none", I("to_edwards:None@%d" % n_none),
+                               "to_edwards produces None on a path not guarded by the u == -1 test: the expect() in nonspec_map_to_curve (reviewed residual) becomes reachable", fv.loc(s[3]))
+                else:
+                    R.viol("C15.to_edwards_none", I("to_edwards:Some"), "to_edwards builds Some(..) itself instead of returning decompress()'s result: review the residual", fv.loc(s[3]))
+        t = b.get("t")
+        if t and t["k"] == "call" and t["dest"][0] == 0 and not t["dest"][1]:
+            n = cname(t)
+            ok = bool(re.search(r"CompressedEdwardsY::decompress$", n))
+            if ok:
+                R.ok("C15.to_edwards_none", I("to_edwards:tail-call"), "result is decompress()'s result")
+            else:
+                R.viol("C15.to_edwards_none", I("to_edwards:tail-call"), "result comes from %s, not decompress()" % n, fv.loc(t["line"]))
+    # `?` on an Option (Try::branch + from_residual) is another None exit
+    for bi, t in fv.calls:
+        if re.search(r"FromResidual.*::from_residual$|ops::Try>::branch$", cname(t)) and bi in fv.live_blocks():
+            R.viol("C15.to_edwards_none", I("to_edwards:question-mark"), "to_edwards propagates / post-processes an Option with `?`: None exits are no longer exactly {u == -1, decompress()}", fv.loc(t["line"]))
+    R.floor("C15.to_edwards_none", I("None aggregates in to_edwards"), n_none, 1)
+
+
+def mentions_minus_one(e):
+    """does the expression mention a field-element constant equal to -1 mod p (by path or by limb value)?"""
+    import ex
+    P = 2**255 - 19
+
+    def limbs_value(x):
+        if isinstance(x, dict):
+            for v in x.values():
+                r = limbs_value(v)
+                if r is not None:
+                    return r
+        if isinstance(x, list) and len(x) in (5, 10) and all(isinstance(i, int) for i in x):
+            if len(x) == 5:
+                return sum(l << (51 * i) for i, l in enumerate(x)) % P
+            sh, acc = 0, 0
+            for i, l in enumerate(x):
+                acc += l << sh
+                sh += 26 if i % 2 == 0 else 25
+            return acc % P
+        if isinstance(x, list):
+            for v in x:
+                r = limbs_value(v)
+                if r is not None:
+                    return r
+        return None
+
+    def pred(x):
+        if isinstance(x, tuple) and x and x[0] == "const":
+            if len(x) > 3 and x[3] and re.search(r"MINUS_ONE$", str(x[3])):
+                return True
+            return limbs_value(x[1]) == P - 1
+        return False
+    return bool(ex.find(e, pred))
+
+
+def guard_expr(fv, bi):
+    """expression of the switch condition that controls block bi (nearest dominating switch whose one arm leads to bi)"""
+    from mirlib import expr_of
+    for pb, b in enumerate(fv.blocks):
+        t = b.get("t")
+        if t and t["k"] == "switch":
+            tg = [x[1] for x in t["targets"]] + [t["otherwise"]]
+            if bi in tg and len(set(tg)) > 1:
+                return expr_of(fv, t["discr"], 10)
+    return None
 
 
 def short(f):
